@@ -47,7 +47,7 @@ def _spec(ctx, targeted=False):
         return ('2,8,32', 6, '0,2', '2', 'record-symlinks,run,mixed')
     if ctx.tier == 'quick':
         return ('2,8,32', 1, '0', '2', '')
-    return ('2,3,8,16,32', 2, '1,2,4,16', '2', '')
+    return ('2,3,8,16,32', 3, '1,2,4,16', '2', '')
 
 
 def _in_toto_frames(report):
